@@ -274,6 +274,9 @@ def check_c02(prog, rep, tier, cfg):
             tv = parse_cov.variant_truth(prog, LANG + "CommentKind::is_singleline")
             rep.check(tv is not None and tv.get("InlineLine") is True and tv.get("IndividualLine") is True and sum(1 for v in tv.values() if v) == 2, R, "is_singleline={IndividualLine,InlineLine}",
                       "CommentKind::is_singleline is true for %s" % sorted(k for k, v in (tv or {}).items() if v), instance={"true_for": sorted(k for k, v in (tv or {}).items() if v)})
+    # ---------------------------------------------------------------- C02.g separating spaces survive until all wrapping is done
+    import layout
+    layout.zeroing_after_wrapping(prog, rep, "C02.g")
     # ---------------------------------------------------------------- C02.f spacing table never forces 0 between word-like tokens
     R = "C02.f"
     for fn, zero_for, root in (("spaces_before", {"None": None, "Op": {"LBrack", "LParen", ("LessThan", "Generic")}}, "before"), ("spaces_after", {"Op": {"RBrack", "RParen", ("GreaterThan", "Generic")}}, "after")):
@@ -338,6 +341,6 @@ PROPERTIES = {
             "is consulted before any soft rule and map_can_break can only turn MustBreak into Invalid; (c) the search explores only Break under MustBreak, only Continue under "
             "MustNotBreak, nothing under Invalid; (d) a Break decision stores >= 1 newline, Continue stores 0; (e) the last-resort flag (previous token is a single-line comment) is "
             "updated on every path and guards both emission arms; (f) the spacing table forces 0 spaces only next to brackets/generic chevrons, identifiers force a following space, "
-            "keywords/comments/directives get one space either side. Not decided: generic-bracket re-typing heuristics, the full operator-pair gluing matrix, the fallback when no "
+            "keywords/comments/directives get one space either side; (g) line-start spaces are removed only after the last wrapping pass. Not decided: generic-bracket re-typing heuristics, the full operator-pair gluing matrix, the fallback when no "
             "wrapping is found.", []),
 }
